@@ -342,7 +342,26 @@ func genPrefix(c *ctx) {
 			}
 			nia := []int{1, 1, 1, 1, 2, 2, 3, 0}[c.rng.Intn(8)]
 			var sb strings.Builder
+			renewAndMore := false
+			if hs := held[cl]; len(hs) > 0 && c.rng.Intn(7) == 0 {
+				// a client that holds a prefix asks for ONE MORE in a first IA_PD (no hint, or only a length) and renews what
+				// it holds in a second: on a pool that is used up the first cannot be served, the second must be all the same
+				// (round 8 of the seeded changes: an allocation error of one IA_PD leaked into the next)
+				renewAndMore = true
+				nia = 2
+			}
 			fmt.Fprintf(&sb, "pmsg %s %d %d", cl, depth, nia)
+			if renewAndMore {
+				hs := held[cl]
+				p := strings.Fields(hs[c.rng.Intn(len(hs))])
+				if c.rng.Intn(2) == 0 {
+					fmt.Fprintf(&sb, " iapd %08x 0", 7)
+				} else {
+					fmt.Fprintf(&sb, " iapd %08x 1 hint p %s %d", 7, hx(net.IPv6zero), cfg.page)
+				}
+				fmt.Fprintf(&sb, " iapd %08x 1 hint p %s %s", c.rng.Intn(3)+1, p[0], p[1])
+				nia = 0
+			}
 			for a := 0; a < nia; a++ {
 				nh := []int{0, 0, 0, 1, 1, 1, 2, 3}[c.rng.Intn(8)]
 				fmt.Fprintf(&sb, " iapd %08x %d", c.rng.Intn(3)+1, nh)
